@@ -41,8 +41,7 @@ package main
 //   return &SecurityRequirementsError{SecurityRequirements: srs, Errors: errs}   → .failAll
 //
 // func validateSecurityRequirement(ctx, input, securityRequirement):
-//   if len(securityRequirement) == 0 { return nil }                       → .emptyReqOk   (not in the pinned source; the shape of
-//                                                                            the repair proposed for finding F-C07-1)
+//   if len(securityRequirement) == 0 { return nil }                       → .emptyReqOk   (the repair of finding F-C07-1, 1f8c043)
 //   names := make([]string, 0, len(securityRequirement)); for name := range securityRequirement { names = append(names, name) };
 //   sort.Strings(names)                                                   → .sortedNames
 //   options := input.Options ; if options == nil { options = &Options{} }  → .optionsDefault
